@@ -20,6 +20,26 @@ CLAIMED = {
             "Seeded search over presets x store_* flags x dimensions 0..130 x histories with divergences of every cause and transformation updates; every draw's statistics are compared with the declared schema.",
             "Schema = what Settings::stat_* report for the same math object; density stub trusted.",
             "DESIGN.md §5 C16"),
+    "C10": (ENGINE_B, "exploration",
+            "real Sampler as shuttle tasks under the harness's seeded scheduler; bitwise trace comparison against the system's own uninterrupted run",
+            "Seeded search over thread interleavings (sticky-random and PCT-like scheduler personalities), num_cores 1..4, num_chains 1..6, six presets, user scripts with pause/resume/progress/flush/inspect at seeded points; every execution's per-chain records must equal, bit for bit, the uninterrupted single-core FIFO run, runs with one chain more/fewer must agree on the common chains, and no two chains may produce the same draws.",
+            "rayon is replaced by a FIFO worker-pool stand-in and std sync/thread/time by shuttle models + a simulated clock (nuts_rs_verif_rt); bounds: <=6 chains, <=16 draws per chain, dimension <=3.",
+            "DESIGN.md §5 C10"),
+    "C11": (ENGINE_B, "exploration",
+            "real Sampler under the seeded scheduler; deadlock/livelock detection and history oracles over global event sequence numbers",
+            "Seeded search over command sequences x interleavings x chains<,=,>cores x chain speeds x callback rates; invariants while running: no deadlock (all tasks blocked), step bound, every invoked call returns; afterwards: complete traces or exact prefixes, finalized trace = recorded trace, every progress()/callback/inspect snapshot agrees exactly with the recorded trace.",
+            "Same stubs as C10. Liveness is bounded: the final wait must finish within 20000 simulated timeouts / 3e6 scheduler steps.",
+            "DESIGN.md §5 C11"),
+    "C12": (ENGINE_B, "exploration",
+            "real Sampler under the seeded scheduler; pause-interval oracle over the recorded event history",
+            "Seeded search over the point at which pause/resume land relative to every chain's loop (the user task yields many times after pause() returned so chains get every chance to overrun); per chain the draws recorded between return of pause() and the next resume() are bounded by 1 + earlier resume commands, unstarted chains record nothing, and the final trace equals the uninterrupted run.",
+            "Same stubs as C10; the bound uses only commands issued by the user.",
+            "DESIGN.md §5 C12"),
+    "C13": (ENGINE_B, "fault_enumeration",
+            "real Sampler under the seeded scheduler with fault injection at every fault position of each base run",
+            "For each sampled base run every fault position is injected in turn (unrecoverable/recoverable density error at every evaluation of every chain, storage record/finalize/flush/inspect/new_trace/initialize errors at every call, Model::math and init_position failures, first n / all initialisation attempts failing), each under several schedules, plus batches with 2-3 simultaneous faults; a fired fatal fault must surface as Err through wait_timeout/abort, never as panic, hang or success; recoverable faults never end a chain.",
+            "Base runs are sampled (seeded), positions within a base run are enumerated (strided beyond 48 evaluations per chain). abort() returning Ok after a chain error is counted, not flagged.",
+            "DESIGN.md §5 C13"),
 }
 
 NOT_APPLICABLE = {
